@@ -194,7 +194,37 @@ def suite_bigsys(ctx, case):
         ok = all(np.array_equal(p.omega.data[:, idx[a], idx[b]], tabs[(a, b)] * site[(a, b)]) for (a, b) in tabs)
         ctx.pred('bigsys', case, ok, 'PRISM.omega is not each table times its site density (tables that agree near both ends of a long grid are not the same table)', key='C12:fromarray')
 
-SUITES = {'array': suite_array, 'file': suite_file, 'history': suite_history, 'bigsys': suite_bigsys}
+def suite_mixed(ctx, case):
+    """a two-component System in which an ANALYTIC omega with a bond length != 1 (FJC / NFJC / Gaussian) is evaluated before the tabulated pair:
+    the table is checked against the Domain's own k grid - accepted verbatim when its k column is that grid, refused when it is that grid
+    times the bond length"""
+    L, dr = case['L'], case['dr']; l = case['l']
+    def build(kfactor):
+        s = pyPRISM.System(['A', 'B'], kT=1.0); s.domain = pyPRISM.Domain(length=L, dr=dr)
+        s.density['A'] = 0.2; s.density['B'] = 0.3; s.diameter[['A', 'B']] = 1.0
+        s.potential[['A', 'B'], ['A', 'B']] = pyPRISM.potential.HardSphere(); s.closure[['A', 'B'], ['A', 'B']] = pyPRISM.closure.PercusYevick()
+        O = pyPRISM.omega
+        s.omega['A', 'A'] = {'fjc': lambda: O.FreelyJointedChain(length=6, l=l), 'nfjc': lambda: O.NonOverlappingFreelyJointedChain(length=4, l=l), 'gauss': lambda: O.Gaussian(sigma=l, length=8)}[case['kind']]()
+        s.omega['A', 'B'] = O.NoIntra()
+        k = np.array(s.domain.k, dtype=float)
+        tab = 1.0 + 2.0 * np.exp(-(k * 0.7) ** 2)
+        s.omega['B', 'B'] = O.FromArray(tab.copy(), k * kfactor)
+        return s, tab, k
+    s, tab, k = build(1.0)
+    try:
+        p = s.createPRISM(); ok = bool(np.array_equal(p.omega.data[:, 1, 1], tab * 0.3)) and bool(np.array_equal(s.domain.k, k)); why = 'omega_BB is not the table times the site density, or the System\'s k grid changed'
+        p2 = s.createPRISM(); ok = ok and bool(np.array_equal(p2.omega.data[:, 1, 1], tab * 0.3))
+    except Exception as e:
+        ok = False; why = 'createPRISM raised %s although the k column IS the Domain\'s grid' % type(e).__name__
+    ctx.pred('mixed', case, ok, 'a table next to a %s omega with l = %g: %s' % (case['kind'], l, why), key='C12:fromarray')
+    s, tab, k = build(l)
+    try:
+        s.createPRISM(); refused = False
+    except Exception:
+        refused = True
+    ctx.pred('mixed', case, refused, 'a table whose k column is the Domain\'s grid times %g (next to a %s omega with that bond length) was accepted' % (l, case['kind']), key='C12:fromarray')
+
+SUITES = {'array': suite_array, 'file': suite_file, 'history': suite_history, 'bigsys': suite_bigsys, 'mixed': suite_mixed}
 
 def gen_domain(rng, maxL):
     L = rng.choice([1, 2, 3, 5, 8, 16, rng.randint(1, maxL)])
@@ -222,6 +252,9 @@ def relate(rng, kd, rel):
 
 def generate(ctx):
     rng = ctx.rng; maxL = ctx.n(40, 300)
+    for q in range(ctx.n(6, 40)):
+        case = {'L': rng.choice([16, 32, 64]), 'dr': rng.choice([0.1, 0.2]), 'l': rng.choice([0.8, 1.25, 0.5, 2.0]), 'kind': ['fjc', 'nfjc', 'gauss'][q % 3]}
+        ctx.case('mixed', case, True, tags=['mixed:' + case['kind']]); suite_mixed(ctx, case)
     for q in range(ctx.n(4, 20)):
         case = {'L': rng.choice([1024, 1200, 2048, 1500]), 'dr': rng.choice([0.05, 0.1]), 'w': rng.uniform(0.5, 2.0), 'amp': rng.choice([0.5, -0.3, 2.0]), 'badk': q % 2 == 1}
         ctx.case('bigsys', case, True, tags=['bigsys', 'badk' if case['badk'] else 'goodk']); suite_bigsys(ctx, case)
